@@ -12,7 +12,8 @@ Correspondence (K, policy EXACT): per step and slot the reported error (float32 
 (`Model/Gate.lean`: `slotStep` with `select` / `selectTriple` / `selectWhere`); its decision (kept /
 replaced), the stored error and the origin of the stored value are compared with what the state shows:
 kept <=> every stored leaf bitwise equal to the previous one. A replaced-but-bit-equal slot is counted as
-inconclusive unless the statistics changed under O(1) gradients (then the candidate must differ).
+inconclusive unless the statistics moved by >= 5% (Frobenius, relative) under O(1)-only gradients since the stored value
+last changed (then the candidate must differ bitwise).
 `XF` decoding, IEEE arithmetic/comparison of `XF` and the arithmetic blend are compared EXACTLY with numpy.
 
 Search oracle (S, no reference to the model): after every step every stored preconditioner leaf is finite;
@@ -22,7 +23,6 @@ the update is finite as long as every gradient so far was zero or of magnitude 1
 import itertools
 import os
 import random
-import zlib
 from fractions import Fraction
 
 from harness import kit, consts
@@ -223,10 +223,11 @@ def _view(c, state, names):
             errs = np.asarray(loc.training_metrics.inverse_pth_root_errors).reshape(-1)
             for k in range(ns):
                 owned.add(i0 + k)
-                slots.append({"owner": n, "k": k, "P": [Pg[i0 + k]], "S": [Sg[i0 + k]], "err": errs[k], "dense": Pg[i0 + k]})
+                slots.append({"owner": n, "k": k, "P": [Pg[i0 + k]], "S": [Sg[i0 + k]], "err": errs[k], "dense": Pg[i0 + k],
+                              "Sdense": Sg[i0 + k]})
         for i in range(Pg.shape[0]):
             if i not in owned:
-                slots.append({"owner": None, "k": i, "P": [Pg[i]], "S": [Sg[i]], "err": None, "dense": Pg[i]})
+                slots.append({"owner": None, "k": i, "P": [Pg[i]], "S": [Sg[i]], "err": None, "dense": Pg[i], "Sdense": Sg[i]})
         return int(state.count), slots
     dev0 = (lambda x: np.asarray(x)[0]) if mode == "pmapq" else (lambda x: np.asarray(x))
     for n in names:
@@ -236,10 +237,11 @@ def _view(c, state, names):
             if mode == "pmapq":
                 q, d, b = dev0(p.quantized), dev0(p.diagonal), dev0(p.bucket_size)
                 dense = q.astype(np.float32) * b[np.newaxis, :] + np.diag(d)
-                slots.append({"owner": n, "k": k, "P": [q, d, b], "S": [dev0(s.quantized), dev0(s.diagonal), dev0(s.bucket_size)],
-                              "err": errs[k], "dense": dense})
+                sq, sd, sb = dev0(s.quantized), dev0(s.diagonal), dev0(s.bucket_size)
+                slots.append({"owner": n, "k": k, "P": [q, d, b], "S": [sq, sd, sb], "err": errs[k], "dense": dense,
+                              "Sdense": sq.astype(np.float32) * sb[np.newaxis, :] + np.diag(sd)})
             else:
-                slots.append({"owner": n, "k": k, "P": [dev0(p)], "S": [dev0(s)], "err": errs[k], "dense": dev0(p)})
+                slots.append({"owner": n, "k": k, "P": [dev0(p)], "S": [dev0(s)], "err": errs[k], "dense": dev0(p), "Sdense": dev0(s)})
     return int(dev0(state.count)), slots
 
 
@@ -291,9 +293,9 @@ def _run_config(c):
             state = do_init()
             cnt0, v0 = _view(c, state, names)
             init_errs = [(_f32hex(s["err"]) if s["err"] is not None else None) for s in v0]
-            init_shash = [zlib.crc32(b"".join(_bits(x) for x in s["S"])) for s in v0]
             steps, fails = [], []
             moderate = True
+            s_ref = [np.asarray(s["Sdense"], np.float64) for s in v0]   # statistics when the stored value last changed bitwise
             for t, kind in enumerate(h["kinds"][:c["T"]]):
                 g = {}
                 for n in names:
@@ -317,9 +319,14 @@ def _run_config(c):
                     same = [_bits(x) == _bits(y) for x, y in zip(a["P"], b["P"])]
                     fin = _finite_leaves([l for l in b["P"] if l.dtype.kind == "f"] + [b["dense"]])
                     err = b["err"]
-                    rec = {"owner": b["owner"], "k": b["k"], "same": same, "finite": fin,
+                    sn = np.asarray(b["Sdense"], np.float64)
+                    with np.errstate(all="ignore"):
+                        den = np.linalg.norm(sn)
+                        srel = float(np.linalg.norm(sn - s_ref[si]) / den) if (np.isfinite(den) and den > 0) else float("nan")
+                    if not all(same):
+                        s_ref[si] = sn
+                    rec = {"owner": b["owner"], "k": b["k"], "same": same, "finite": fin, "srel": srel,
                            "err": _f32hex(err) if err is not None else None,
-                           "shash": zlib.crc32(b"".join(_bits(x) for x in b["S"])),
                            "stats_finite": _finite_leaves([l for l in b["S"] if l.dtype.kind == "f"])}
                     st["slots"].append(rec)
                     tag = f"step {t}: slot {si} ({b['owner']}[{b['k']}])"
@@ -336,7 +343,7 @@ def _run_config(c):
                                 fails.append(f"{tag}: preconditioner replaced although the reported error {e32} is not below the threshold {thr32}")
                 steps.append(st)
                 cnt0, v0 = cnt1, v1
-            out.append({"case": case, "steps": steps, "fails": fails, "init_errs": init_errs, "init_shash": init_shash})
+            out.append({"case": case, "steps": steps, "fails": fails, "init_errs": init_errs})
     return out
 
 
@@ -414,16 +421,20 @@ def model_requests(o):
     if c["kind"] == "ieee":
         reqs = [{"op": "xf_arith", "a": r["a"], "b": r["b"]} for r in o["arith"]]
         reqs += [{"op": "blend", "err": r["err"], "thr": r["thr"], "old": r["old"], "new": r["new"]} for r in o["blend"]]
+        reqs += [{"op": "gate", "err": r["err"], "thr": r["thr"]} for r in o["blend"]]
         return reqs
     reqs = []
     thr = kit.f32_hex(c["thr"])
     nslot = len(o["init_errs"])
-    for k in range(nslot):
-        if o["init_errs"][k] is None:
-            continue
-        errs = [st["slots"][k]["err"] for st in o["steps"]]
+    owned = [k for k in range(nslot) if o["init_errs"][k] is not None]
+    # the whole state at once (`stateRun`: all slots driven by one counter) ...
+    reqs.append({"op": "state_trace", "mode": MODEL_MODE[c["mode"]], "thr": thr, "itv": c["pi"],
+                 "init_errs": [o["init_errs"][k] for k in owned],
+                 "errs": [[st["slots"][k]["err"] for k in owned] for st in o["steps"]]})
+    # ... and slot 0 alone through `slotStep` (the two must agree)
+    if owned:
         reqs.append({"op": "slot_trace", "mode": MODEL_MODE[c["mode"]], "thr": thr, "itv": c["pi"],
-                     "init_err": o["init_errs"][k], "errs": errs})
+                     "init_err": o["init_errs"][owned[0]], "errs": [st["slots"][owned[0]]["err"] for st in o["steps"]]})
     # decoding of every observed error and of the threshold
     allb = sorted({st["slots"][k]["err"] for st in o["steps"] for k in range(nslot) if st["slots"][k]["err"] is not None} | {thr})
     reqs.append({"op": "xf_decode", "bits32": allb})
@@ -449,7 +460,20 @@ def compare(ctx, o, replies):
                 ctx.corr("xf." + f, ok)
                 if not ok:
                     ctx.disagree("xf." + f, {"a": r["a"], "b": r["b"]}, r[f], m.get(f))
-        for r, m in zip(o["blend"], replies[na:]):
+        nb = len(o["blend"])
+        for r, m in zip(o["blend"], replies[na + nb:]):
+            # `_skip` as jnp evaluates it (float32) vs the model, and the selectors of the three modes on tokens
+            v = 0 if r["pred"] else 1
+            import math
+            thr_nan = math.isnan(float(kit.hex_f32(r["thr"])))
+            want = {"skip": r["pred"], "select": v, "triple": [v, v, v], "where": [v, v],
+                    "sharded": [[v, v], [11, 11] if thr_nan else [10, 10]]}
+            got = {k2: m.get(k2) for k2 in want}
+            ok = got == want
+            ctx.corr("gate.skip_and_selectors", ok)
+            if not ok:
+                ctx.disagree("gate.skip_and_selectors", {"err": r["err"], "thr": r["thr"]}, want, got)
+        for r, m in zip(o["blend"], replies[na:na + nb]):
             for f in ("arith", "select"):
                 ok = _hex64_xf(r[f]) == m.get(f)
                 ctx.corr("blend." + f, ok)
@@ -474,13 +498,18 @@ def compare(ctx, o, replies):
         ctx.corr("xf.decode32", ok)
         if not ok:
             ctx.disagree("xf.decode32", {"bits": b}, _hex32_fraction(b), m)
+    steps_all = replies[0].get("steps")
+    if steps_all is None or (owned and replies[1].get("steps") is None):
+        ctx.disagree(pre + ".driver", c, None, replies[0])
+        return
+    if owned:
+        ok = [st["slots"][0] for st in steps_all] == [{k2: v for k2, v in st.items() if k2 != "perform"} for st in replies[1]["steps"]]
+        ctx.corr("model.stateRun_vs_slotRun", ok)
+        if not ok:
+            ctx.disagree("model.stateRun_vs_slotRun", c, None, None, "state_trace slot 0 differs from slot_trace")
     for ri, k in enumerate(owned):
-        ms = replies[ri].get("steps")
-        if ms is None:
-            ctx.disagree(pre + ".driver", c, None, replies[ri])
-            return
+        ms = [dict(st["slots"][ri], perform=st["perform"]) for st in steps_all]
         owner = o["steps"][0]["slots"][k]["owner"]
-        origin_hash = o["init_shash"][k]      # statistics the stored preconditioner was computed from (initial: none)
         only_ok = True                        # every gradient of the owner so far was O(1) or zero
         for t, (st, m) in enumerate(zip(o["steps"], ms)):
             s = st["slots"][k]
@@ -507,12 +536,12 @@ def compare(ctx, o, replies):
                     ctx.nontrivial((mode, c["thr"], c["eps"], c["eigh"], c["pi"], "replaced", s["err"], t, k, tuple(c["kinds"][:t + 1])))
                     if mode == "pmapq" and not all(not x for x in s["same"]):
                         ctx.dist(pre + ".replaced.some_leaf_bit_equal")
-                elif only_ok and kind == "ok" and s["shash"] != origin_hash and s["stats_finite"]:
+                elif only_ok and kind == "ok" and s["stats_finite"] and s["srel"] == s["srel"] and s["srel"] >= 0.05:
                     ctx.disagree(pre + ".replaced_is_bitwise_different", c, "bitwise equal",
-                                 "replaced (error below threshold, statistics changed under O(1) gradients)", f"step {t} slot {k} err={s['err']}")
+                                 "replaced (error below threshold, statistics moved >= 5% under O(1) gradients)",
+                                 f"step {t} slot {k} err={s['err']} srel={s['srel']}")
                 else:
                     ctx.dist(pre + ".inconclusive_replaced_but_bit_equal")
-                origin_hash = s["shash"]
 
 
 # ============================================================================ stages
@@ -618,7 +647,7 @@ def run(ctx):
         "comparison policy EXACT: gate decision, stored error (float32 bit pattern decoded exactly to XF), bitwise equality of stored leaves",
         "the threshold is compared in float32 (weak-typed Python scalar against a float32 array; x64 disabled)",
         "a replaced-but-bit-equal slot is inconclusive unless the owner's gradients so far were O(1)/zero, this step's gradient is O(1) and "
-        "the statistics changed bitwise since the stored root was computed (then the candidate must differ: disagreement)",
+        "the statistics moved by >= 5% (relative Frobenius norm) since the stored value last changed (then the candidate must differ: disagreement)",
         "XF arithmetic is exact (no rounding, no signed zero): compared with numpy only on dyadic inputs and specials",
         "the update-finite clause is evaluated on steps up to which every gradient was zero or of magnitude 1e-12..1e12 "
         "(after a non-finite or 1e30 gradient the momentum itself is non-finite; the property does not claim otherwise)",
